@@ -46,16 +46,25 @@ func C01(p *Prog, r *Run) {
 		}
 		for _, f := range []string{"Genes", "Nodes", "nodeByIdMap", "Traits"} {
 			var bad []string
-			n := 0
+			n, nInit := 0, 0
 			for _, fn := range p.SrcFuncs() {
 				for _, st := range FieldStores(fn, gf(f)) {
 					n++
-					if _, ok := allowed[f][fn.Name()]; !ok && !initStores[st] {
-						bad = append(bad, FuncName(fn)+" at "+p.Pos(st.Pos()))
+					if _, ok := allowed[f][fn.Name()]; ok {
+						continue
 					}
+					if initStores[st] {
+						nInit++
+						continue
+					}
+					bad = append(bad, FuncName(fn)+" at "+p.Pos(st.Pos()))
 				}
 			}
-			r.Check(len(bad) == 0, "writers:"+f, "-", fmt.Sprintf("%d stores, all in %s", n, strings.Join(sortedKeys(allowed[f]), ", ")), "Genome."+f+" is also written by "+strings.Join(bad, "; ")+": the list can lose its order or its agreement with the node index")
+			inPlace := ""
+			if nInit > 0 {
+				inPlace = fmt.Sprintf(" (%d of them initialise a genome that newGenome / duplicate has just allocated)", nInit)
+			}
+			r.Check(len(bad) == 0, "writers:"+f, "-", fmt.Sprintf("%d stores, all in %s%s", n, strings.Join(sortedKeys(allowed[f]), ", "), inPlace), "Genome."+f+" is also written by "+strings.Join(bad, "; ")+": the list can lose its order or its agreement with the node index")
 		}
 		// the index map itself is updated only by mapNodeId and the constructor that builds it
 		var bad []string
